@@ -32,6 +32,8 @@ func writeIfChanged(path string, content []byte) error {
 	return os.WriteFile(path, content, 0o644)
 }
 
+func environ() []string { return os.Environ() }
+
 func main() {
 	flag.Parse()
 	what := "all"
